@@ -1,0 +1,40 @@
+//go:build verif
+
+// Contracts for package auth, read by /verif/govc (contract-based deductive
+// verification). Comments only; compiled only with the build tag "verif".
+package auth
+
+// ---- C03 / C15: the single access decision -----------------------------------
+// granted(...) is the decision table of the property statement: root and admin
+// accounts pass; otherwise, when the bucket has a policy, the policy evaluation
+// decides, and only when no policy is set the bucket ACL decides.
+// VerifyBucketPolicy and verifyACL are deterministic functions of their
+// arguments; their own contracts are under C14 / below.
+
+//@ ghost func granted(be Iface, acl ACL, acc Account, isRoot bool, bucket string, object string, action Action, perm Permission) bool = \
+//@     isRoot || acc.Role == RoleAdmin || \
+//@     ite(polSet(be, bucket), VerifyBucketPolicy(polDoc(be, bucket), acc.Access, bucket, object, action) == nil, \
+//@                             verifyACL(acl, acc.Access, perm) == nil)
+
+//@ func VerifyBucketPolicy
+//@   pure
+//@ func verifyACL
+//@   pure
+
+//@ func VerifyAccess
+//@   ensures {C03} [decision] err == nil ==> granted(be, opts.Acl, opts.Acc, opts.IsRoot, opts.Bucket, opts.Object, opts.Action, opts.AclPermission)
+//@   ensures {C15} [readonly-refuses-writes] opts.Readonly && (opts.AclPermission == PermissionWrite || opts.AclPermission == PermissionWriteAcp) ==> err != nil
+
+// The source of a copy is the bucket and key that the backend will actually read, i.e. what
+// backend.ParseCopySource makes of the header value; some ACL of that bucket must have been consulted.
+//@ ghost func copySourceGranted(be Iface, acc Account, isRoot bool, copySource string) bool = \
+//@     exists a ACL :: granted(be, a, acc, isRoot, backend.ParseCopySource(copySource).0, backend.ParseCopySource(copySource).1, GetObjectAction, PermissionRead)
+
+//@ func VerifyObjectCopyAccess
+//@   ensures {C03} [destination] err == nil ==> granted(be, opts.Acl, opts.Acc, opts.IsRoot, opts.Bucket, opts.Object, opts.Action, opts.AclPermission)
+//@   ensures {C03} [source] err == nil ==> copySourceGranted(be, opts.Acc, opts.IsRoot, copySource)
+//@   ensures {C15} [readonly-refuses-writes] opts.Readonly && (opts.AclPermission == PermissionWrite || opts.AclPermission == PermissionWriteAcp) ==> err != nil
+
+// CheckObjectAccess only reads the object identifiers it is given (assumed frame condition).
+//@ func CheckObjectAccess
+//@   preserves-args
